@@ -14,7 +14,7 @@ import (
 
 // C03 — key sequences run exactly the command they are bound to.
 
-const c03Rule = "bind tables of 1-12 sequences (length 1-4) over the alphabet {a b c [ 1 ESC C-a C-x M-a DEL}, built by construction to contain prefix chains (s, s.x, s.x.y), siblings and disjoint entries, each bound to a distinct probe command (Keymap.Register + Config.Bind) or, one in four, to a macro whose body is a string over the alphabet resolved through the same table (no self-reference, depth <= 2); the tested keymap's binds are REPLACED by the table; keymaps: emacs, vi-insert, vi-command as main, vi-opp and vi-visual as local (entered through a probe calling Keymap.SetLocal), and emacs underneath an active local keymap whose only bind is ESC Q, Q not in the alphabet (every key must fall through to the main keymap's table); convert-meta on/off; input = 1-12 keys biased to walk the table (full matches, proper prefixes then a ruling-out key, unbound keys), delivered one key per read (which times every invocation) and again in a single read; oracle = reference resolver (longest-match automaton, appendix A.1) whose emissions (probe, key index) must equal the probe log; where the statement is silent the model branches (ruling-out key dropped or re-dispatched; keys of a failed sequence all given up, or only the first with the rest starting over) and any branch is accepted; ESC is left out of the alphabet in vi and local keymaps (lone ESC is decided by timing there); non-trivial = the table has a prefix overlap that the input exercises, or a macro is resolved; distinct = hash of the case"
+const c03Rule = "bind tables of 1-12 sequences (length 1-4) over the alphabet {a b c [ 1 ESC C-a C-x M-a DEL}, built by construction to contain prefix chains (s, s.x, s.x.y), siblings and disjoint entries, each bound to a distinct probe command (Keymap.Register + Config.Bind) or, one in four, to a macro whose body is a string over the alphabet resolved through the same table (no self-reference, depth <= 2; a command NAMED like a printable macro body is registered unbound and must never run); the tested keymap's binds are REPLACED by the table; keymaps: emacs, vi-insert, vi-command as main, vi-opp and vi-visual as local (entered through a probe calling Keymap.SetLocal), and emacs underneath an active local keymap whose only bind is ESC Q, Q not in the alphabet (every key must fall through to the main keymap's table); convert-meta on/off; input = 1-12 keys biased to walk the table (full matches, proper prefixes then a ruling-out key, unbound keys), delivered one key per read (which times every invocation) and again in a single read; oracle = reference resolver (longest-match automaton, appendix A.1) whose emissions (probe, key index) must equal the probe log; where the statement is silent the model branches (ruling-out key dropped or re-dispatched; keys of a failed sequence all given up, or only the first with the rest starting over) and any branch is accepted; ESC is left out of the alphabet in vi and local keymaps (lone ESC is decided by timing there); non-trivial = the table has a prefix overlap that the input exercises, or a macro is resolved; distinct = hash of the case"
 
 type C03Bind struct {
 	Seq   []string `json:"seq"`             // key names of the alphabet
@@ -411,6 +411,8 @@ func (c *C03Case) spec(mainKm string) (*proto.Spec, string) {
 		enter = "Z"
 	}
 
+	namedLike := map[string]bool{}
+
 	for i, b := range c.Table {
 		name := fmt.Sprintf("probe-%d", i)
 		seq := ""
@@ -431,6 +433,14 @@ func (c *C03Case) spec(mainKm string) (*proto.Spec, string) {
 			// a macro bind's action is its body in inputrc notation; the probe of a
 			// macro is observed through what its body triggers, plus a marker probe
 			spec.Binds = append(spec.Binds, proto.BindSpec{Keymap: bindKm, Seq: seq, Action: inputrcEscape(body), Macro: true})
+
+			// A command whose NAME is the macro's text is registered as well (a
+			// quoted command name in an inputrc file is a macro that types the
+			// name): it is bound to nothing and must never run.
+			if inputrcEscape(body) == body && !namedLike[body] {
+				namedLike[body] = true
+				spec.Probes = append(spec.Probes, proto.ProbeSpec{Name: body, Kind: "log"})
+			}
 
 			continue
 		}
@@ -544,6 +554,10 @@ func runC03(h *Harness, child *rig.Child, c *C03Case) (*Failure, bool) {
 				if ev.Ev == "probe" && strings.HasPrefix(ev.Name, "probe-") {
 					observed = append(observed, ev.Name)
 					observedAt = append(observedAt, fmt.Sprintf("%s@%d", ev.Name, atomIdx))
+				} else if ev.Ev == "probe" && ev.Name != "enter" && ev.Name != "local-q" {
+					// the unbound command named like a macro's text ran
+					observed = append(observed, "unbound-command:"+ev.Name)
+					observedAt = append(observedAt, fmt.Sprintf("unbound-command:%s@%d", ev.Name, atomIdx))
 				}
 			}
 		}
